@@ -118,6 +118,9 @@ def run(ctx, selftest=False):
     # ... and where B is far from the scale of C: fewer epochs than broadly-prior'd linear parameters ("finite for every finite valid
     # input"), against exact rational arithmetic
     gd.offlattice_few_epochs(ctx, "C01", 48 if quick else 600)
+    # ... and the opposite corner, many precise epochs on a long baseline under wide trend priors (condition number of B beyond 1e8):
+    # an OPEN FINDING, reported as such (KNOWN-FINDING line); a deviation on a well-conditioned problem stays a violation
+    gd.offlattice_illcond(ctx, "C01", 6 if quick else 60)
     verdicts = ctx.validate("GaussTrace", traces + otr, timeout=3000)
     ctx.judge(traces + otr, verdicts, families=FAMILIES + ("H.",))
     if selftest or not quick:
